@@ -10,7 +10,9 @@ META = {
     "technique": "TLC model checking of an implementation-shaped TLA+ spec over a C11 view model, instantiated "
                  "with memory orderings extracted from the running code; atomic-level and API-level trace "
                  "validation of real executions enumerated by a deterministic scheduler",
-    "text": "TLC exhaustively checks SpscImpl.tla (one action per shared-memory access, operational release/"
+    "text": "(zero-copy channel: schedules of a sender thread (try_send, reclaim) and a receiver thread (receive, release) on "
+            "the real zero_copy_connection, process-local and POSIX shm, validated by TLC against ChannelLin.tla: "
+            "Conservation, NoDuplication, Bounded, and no failing release.) TLC exhaustively checks SpscImpl.tla (one action per shared-memory access, operational release/"
             "acquire memory model C11Mem.tla) for conservation, FIFO order, no invention/duplication, bounded "
             "cursors and data-race freedom, with the orderings read back from the current build; every "
             "preemption-bounded schedule of the real queues (5 queue flavours) is executed under the "
@@ -166,8 +168,46 @@ def validate_api_batch(ctx, items):
     return False
 
 
+def zero_copy_channel(ctx):
+    """second half of the statement: one channel of a zero-copy connection (sender thread / receiver thread)"""
+    quick = ctx.quick
+
+    def on_reject(meta, v, run, rel):
+        what, summ = meta if meta else ("?", {})
+        end = [r for r in run if r.get("k") == "end"]
+        ctx.report(vp.Violation(
+            f"{what}: history of the real zero-copy channel is not explainable by ChannelLin (offset lost, duplicated, "
+            f"out of order, or a release failed for lack of space) at record #{rel}: {v.record}",
+            replay={"what": what, "summary": summ, "run": run, "first_unexplained": v.record, "invariant": v.invariant,
+                    "schedule": end[0].get("sched") if end else None},
+            signature="lin:channel"))
+
+    bv = vp.BatchValidator(ctx, "lockfree", "ChannelLinTrace", on_reject, name="channel")
+    S, C, R, L = "s", "c", "r", "l"
+    cfgs = [("local", 2, 2, True, {"s": [S, S, S, C, S], "r": [R, L, R]}, 2),
+            ("local", 1, 1, False, {"s": [S, S, C, S], "r": [R, L, R, L]}, 2),
+            ("shm", 2, 1, True, {"s": [S, S, S, C], "r": [R, R, L]}, 2)]
+    if not quick:
+        cfgs += [("local", 2, 2, False, {"s": [S, S, S, C, S, C], "r": [R, R, L, R, L]}, 3),
+                 ("shm", 1, 2, True, {"s": [S, S, S, C, C, S], "r": [R, R, L, L]}, 3),
+                 ("local", 3, 1, True, {"s": [S, S, S, S, S, C], "r": [R, L, R, L]}, 2)]
+    for n, (st, buf, mb, ovf, prog, bound) in enumerate(cfgs):
+        for mode, runs in (("dfs", 400 if quick else 30000), ("random", 80 if quick else 3000)):
+            out = ctx.path("traces", f"zcc-{n}-{mode}.ndjson")
+            args = ["zcc", "--storage", st, "--buf", buf, "--maxbor", mb, "--prog", json.dumps(prog), "--mode", mode,
+                    "--bound", bound, "--runs", runs, "--out", out] + (["--overflow"] if ovf else [])
+            _, so, _ = vp.run_driver("drv-event", args, timeout=1800, env={"VERIF_SEED": ctx.seed})
+            summ = vp.last_json_line(so)
+            ctx.evaluations += summ["executions"]
+            if summ["anomalies"]:
+                ctx.report(vp.Violation(f"zero-copy channel execution did not complete normally ({st} {prog})",
+                                        replay={"summary": summ}, signature="anomaly:channel"))
+            bv.add(out, (f"channel {st} buf={buf} maxbor={mb} overflow={ovf} {prog} [{mode}]", summ), summ["executions"])
+    bv.run()
+
+
 def run(ctx):
-    vp.cargo_build(["drv-lockfree"])
+    vp.cargo_build(["drv-lockfree", "drv-event"])
     quick = ctx.quick
     ctx.assumptions += [
         "C11Mem: promise-free view model (no load buffering), modification order = append order, SeqCst "
@@ -228,6 +268,7 @@ def run(ctx):
         ctx.evaluations += summ["executions"]
         api_items.append((trace, (kind, summ)))
     validate_api_batch(ctx, api_items)
+    zero_copy_channel(ctx)
 
     # ---- 2. TLC on the implementation-shaped model with the EXTRACTED orderings (V2)
     mcs = [("plain", False, 1, 3, 3), ("plain", False, 2, 3, 3), ("over", True, 1, 3, 2), ("over", True, 2, 4, 3)]
